@@ -34,6 +34,9 @@ def _dispatch(prop, t):
                 "C03": ["combinators", "options:light", "presets:light"], "C08": ["presets"], "C01": ["caching", "presets:light"],
                 "C02": ["caching"], "C06": ["combinators", "caching"], "C12": ["failing", "failing4"], "C16": ["caching"]}[prop]
         return check_expr.check(prop, t, fams, check_expr.RULES[prop], check_expr.ASSUME)
+    if prop == "C07":
+        from . import check_dispatch
+        return check_dispatch.main(t)
     if prop == "C17":
         from . import check_cache
         return check_cache.main(t)
@@ -51,6 +54,9 @@ def _replay(path):
     if kind == "runtime":
         from . import check_runtime
         return check_runtime.replay_file(doc)
+    if kind == "interface":
+        from . import check_dispatch
+        return check_dispatch.replay_file(doc)
     if kind in ("cache", "cache-trace"):
         from . import check_cache
         return check_cache.replay_file(doc)
